@@ -90,6 +90,13 @@ def finish(prop, obs, t0, level='proof', functions=None, bounds=None, trusted=No
     if any(o.status == 'violated' for o in obs):
         from . import reproduce
         reproduce.reproduce(prop, obs)
+    elif any(o.status == 'inconclusive' for o in obs):
+        # the solver could not decide some obligation (typically: changed code the domains cannot follow).  Before answering
+        # "inconclusive", the native battery of the property is run: a concrete disagreement with the reference is a violation
+        # whatever the solver said; no disagreement leaves the verdict inconclusive (never "held").
+        from . import reproduce
+        try: obs = list(obs) + reproduce.battery_after_inconclusive(prop, obs)
+        except Exception as e: print(f'   (native battery after inconclusive verdict could not run: {type(e).__name__}: {str(e)[:200]})')
     for o in obs:
         if o.status == 'violated':
             kf = finding_for(prop, o.key) if o.key else None
